@@ -44,16 +44,18 @@ theorem c06_not_enabled (t : K) (ts : List K) :
     solMany (none : Option (List (Seg K))) ts = .notEnabled ∧ solMany (some ([] : List (Seg K))) ts = .notEnabled ∧
     solSpan (none : Option (List (Seg K))) = none := ⟨rfl, rfl, rfl, rfl, rfl⟩
 
-/-- no gaps: on the segments of a run, `sol_span` is (start, end); `sol t` succeeds for every `t` of the closed span and
-    is evaluated by a segment whose closed interval (± tol) contains `t`; outside the span it is OutOfRange.
-    Both directions, any number of steps, any step sizes. -/
+/-- no gaps: on the segments of a run, `sol_span` is (start, end); `sol t` succeeds for every `t` of the closed span
+    widened at each end by the lookup slack `time_tol` of that end (so also for a last sample that sits a rounding error beyond `xold + h` of
+    its segment) and is evaluated by a segment whose closed interval (± the same slack) contains `t`; beyond that it is
+    OutOfRange.  Both directions, any number of steps, any step sizes. -/
 theorem c06_cover (fwd : Bool) (x : K) (s : Seg K) (r : List (Seg K)) (hc : Chain fwd x (s :: r)) (t : K) :
     let e := endOf x (s :: r)
     solSpan (some (s :: r)) = some (x, e) ∧ x ≠ e ∧
-    (min x e ≤ t → t ≤ max x e →
+    (min x e - tol (min x e) ≤ t → t ≤ max x e + tol (max x e) →
       ∃ s' ∈ s :: r, sol (some (s :: r)) t = .ok s'.id ∧
-        min s'.xold (s'.xold + s'.h) - tol ≤ t ∧ t ≤ max s'.xold (s'.xold + s'.h) + tol) ∧
-    ((t < min x e ∨ max x e < t) → sol (some (s :: r)) t = .outOfRange) := by
+        min s'.xold (s'.xold + s'.h) - tol (min s'.xold (s'.xold + s'.h)) ≤ t ∧
+        t ≤ max s'.xold (s'.xold + s'.h) + tol (max s'.xold (s'.xold + s'.h))) ∧
+    ((t < min x e - tol (min x e) ∨ max x e + tol (max x e) < t) → sol (some (s :: r)) t = .outOfRange) := by
   intro e
   have hspan := tSpan_chain fwd x s r hc
   have hstrict := endOf_strict fwd x s r hc
@@ -62,12 +64,7 @@ theorem c06_cover (fwd : Bool) (x : K) (s : Seg K) (r : List (Seg K)) (hc : Chai
     · exact ne_of_gt hstrict
     · exact ne_of_lt hstrict
   · intro h1 h2
-    have hin : if fwd then x ≤ t ∧ t ≤ endOf x (s :: r) else endOf x (s :: r) ≤ t ∧ t ≤ x := by
-      cases fwd <;> simp only [if_true, if_false, Bool.false_eq_true] at hstrict ⊢
-      · rw [min_eq_right hstrict.le] at h1; rw [max_eq_left hstrict.le] at h2; exact ⟨h1, h2⟩
-      · rw [min_eq_left hstrict.le] at h1; rw [max_eq_right hstrict.le] at h2; exact ⟨h1, h2⟩
-    obtain ⟨s0, hm0, hl0, hr0⟩ := chain_cover fwd x (s :: r) hc (by simp) t hin
-    have hex : ∃ a ∈ s :: r, hit t a = true := ⟨s0, hm0, hit_of_mem hl0 hr0⟩
+    have hex : ∃ a ∈ s :: r, hit t a = true := chain_cover_tol fwd x s r hc t h1 h2
     obtain ⟨s', hf⟩ := Option.isSome_iff_exists.mp (List.find?_isSome.mpr hex)
     have hm' : s' ∈ s :: r := List.mem_of_find?_eq_some hf
     have hh' : hit t s' = true := List.find?_some hf
@@ -75,7 +72,7 @@ theorem c06_cover (fwd : Bool) (x : K) (s : Seg K) (r : List (Seg K)) (hc : Chai
     unfold sol
     dsimp only
     rw [hspan]
-    have hno : ¬ outside t (spanLo x (endOf x (s :: r))) (spanHi x (endOf x (s :: r))) := by
+    have hno : ¬ outside t (spanLo x (endOf x (s :: r))) (spanHi x (endOf x (s :: r))) (tol (spanLo x (endOf x (s :: r)))) (tol (spanHi x (endOf x (s :: r)))) := by
       unfold outside spanLo spanHi
       simp only [num_fmin, num_fmax, gt_iff_lt, not_or, not_lt]
       exact ⟨h1, h2⟩
@@ -86,7 +83,7 @@ theorem c06_cover (fwd : Bool) (x : K) (s : Seg K) (r : List (Seg K)) (hc : Chai
     unfold sol
     dsimp only
     rw [hspan]
-    have : outside t (spanLo x (endOf x (s :: r))) (spanHi x (endOf x (s :: r))) := by
+    have : outside t (spanLo x (endOf x (s :: r))) (spanHi x (endOf x (s :: r))) (tol (spanLo x (endOf x (s :: r)))) (tol (spanHi x (endOf x (s :: r)))) := by
       unfold outside spanLo spanHi
       simpa only [num_fmin, num_fmax, gt_iff_lt] using hout
     simp only [this, if_true]
@@ -102,13 +99,13 @@ theorem c06_first_hit (segs : List (Seg K)) (t : K) (s : Seg K) (h : findSeg seg
     outside the span and otherwise returns one value per point -/
 theorem c06_many_no_panic (fwd : Bool) (x : K) (s : Seg K) (r : List (Seg K)) (hc : Chain fwd x (s :: r)) (ts : List K) :
     solMany (some (s :: r)) ts ≠ .panic ∧
-    ((∀ t ∈ ts, min x (endOf x (s :: r)) ≤ t ∧ t ≤ max x (endOf x (s :: r))) →
+    ((∀ t ∈ ts, min x (endOf x (s :: r)) - tol (min x (endOf x (s :: r))) ≤ t ∧ t ≤ max x (endOf x (s :: r)) + tol (max x (endOf x (s :: r)))) →
       ∃ ids, solMany (some (s :: r)) ts = .ok ids ∧ ids.length = ts.length) := by
   have hspan := tSpan_chain fwd x s r hc
-  have key : (∀ t ∈ ts, ¬ outside t (spanLo x (endOf x (s :: r))) (spanHi x (endOf x (s :: r)))) →
+  have key : (∀ t ∈ ts, ¬ outside t (spanLo x (endOf x (s :: r))) (spanHi x (endOf x (s :: r))) (tol (spanLo x (endOf x (s :: r)))) (tol (spanHi x (endOf x (s :: r))))) →
       ∃ ids, solMany (some (s :: r)) ts = .ok ids ∧ ids.length = ts.length := by
     intro hall
-    have hany : ts.any (fun t => decide (outside t (spanLo x (endOf x (s :: r))) (spanHi x (endOf x (s :: r))))) = false := by
+    have hany : ts.any (fun t => decide (outside t (spanLo x (endOf x (s :: r))) (spanHi x (endOf x (s :: r))) (tol (spanLo x (endOf x (s :: r)))) (tol (spanHi x (endOf x (s :: r)))))) = false := by
       rw [List.any_eq_false]; intro t ht; simpa using hall t ht
     have hsome : ∀ t ∈ ts, ∃ c, (fun t => (findSeg (s :: r) t).map (·.id)) t = some c := by
       intro t ht
@@ -120,7 +117,7 @@ theorem c06_many_no_panic (fwd : Bool) (x : K) (s : Seg K) (r : List (Seg K)) (h
       unfold sol at hs'
       dsimp only at hs'
       rw [hspan] at hs'
-      have hno' : ¬ outside t (spanLo x (endOf x (s :: r))) (spanHi x (endOf x (s :: r))) := hall t ht
+      have hno' : ¬ outside t (spanLo x (endOf x (s :: r))) (spanHi x (endOf x (s :: r))) (tol (spanLo x (endOf x (s :: r)))) (tol (spanHi x (endOf x (s :: r)))) := hall t ht
       simp only [hno', if_false] at hs'
       cases hf : findSeg (s :: r) t with
       | none => rw [hf] at hs'; exact absurd hs' (by simp)
@@ -132,9 +129,9 @@ theorem c06_many_no_panic (fwd : Bool) (x : K) (s : Seg K) (r : List (Seg K)) (h
   · unfold solMany
     dsimp only
     rw [hspan]
-    by_cases hany : ts.any (fun t => decide (outside t (spanLo x (endOf x (s :: r))) (spanHi x (endOf x (s :: r))))) = true
+    by_cases hany : ts.any (fun t => decide (outside t (spanLo x (endOf x (s :: r))) (spanHi x (endOf x (s :: r))) (tol (spanLo x (endOf x (s :: r)))) (tol (spanHi x (endOf x (s :: r)))))) = true
     · dsimp only; rw [if_pos hany]; intro h; cases h
-    · have hall : ∀ t ∈ ts, ¬ outside t (spanLo x (endOf x (s :: r))) (spanHi x (endOf x (s :: r))) := by
+    · have hall : ∀ t ∈ ts, ¬ outside t (spanLo x (endOf x (s :: r))) (spanHi x (endOf x (s :: r))) (tol (spanLo x (endOf x (s :: r)))) (tol (spanHi x (endOf x (s :: r)))) := by
         intro t ht ho
         apply hany
         rw [List.any_eq_true]; exact ⟨t, ht, by simpa using ho⟩
@@ -162,7 +159,11 @@ theorem c06_constant (x0 : K) :
   refine ⟨hc, ?_⟩
   obtain ⟨_, _, hcov, _⟩ := c06_cover true x0 ⟨0, x0, constH⟩ [] hc x0
   have he : endOf x0 [(⟨0, x0, constH⟩ : Seg K)] = x0 + constH := rfl
-  obtain ⟨s', hm, hs, _⟩ := hcov (by rw [he]; exact min_le_left _ _) (by rw [he]; exact le_max_left _ _)
+  have htp1 := tol_pos (min x0 (endOf x0 [(⟨0, x0, constH⟩ : Seg K)]))
+  have htp2 := tol_pos (max x0 (endOf x0 [(⟨0, x0, constH⟩ : Seg K)]))
+  obtain ⟨s', hm, hs, _⟩ := hcov
+    (by have := min_le_left x0 (endOf x0 [(⟨0, x0, constH⟩ : Seg K)]); linarith)
+    (by have := le_max_left x0 (endOf x0 [(⟨0, x0, constH⟩ : Seg K)]); linarith)
   simp only [List.mem_singleton] at hm
   rw [hm] at hs
   exact hs
